@@ -967,3 +967,7 @@ mod tests {
         assert_eq!(logaddexp(2., f64::NEG_INFINITY), 2.);
     }
 }
+
+#[cfg(all(kani, nuts_rs_verif))]
+#[path = "/verif/kani/k_simd.rs"]
+mod verif_kani;
